@@ -504,3 +504,17 @@ N("k-n-operators-comp", SG, '''    "<": operator.lt,
     "<": operator.lt,''', props=["C03"])
 M("i-parse-or-and", SI, """            operator.or_, map(parse_version_specifier, spec.split("||"))""", """            operator.and_, map(parse_version_specifier, spec.split("||"))""", fire=["C05", "C06"])
 M("i-from-set-seed", SI, """        operator.and_, map(_from_pkg_specifier, spec), RangeSpecifier()""", """        operator.or_, map(_from_pkg_specifier, spec), RangeSpecifier()""", fire=["C05", "C04"])
+M("m-g14-regress", MU_, """                if unique_union.is_any():
+                    # AnyMarker & x returns x unchanged, so normalize the common part here
+                    return MultiMarker.of(*common_markers)
+""", "", fire=["C15"])
+M("m-g14-dual-regress", UN, """                if unique_intersection.is_empty():
+                    # EmptyMarker | x returns x unchanged, so normalize the common part here
+                    return MarkerUnion.of(*common_markers)
+""", "", fire=["C15"])
+M("m-g15-tilde-regress", SG, 'while op != "~=" and len(splitted) > 2 and splitted[-1] == "0":', 'while len(splitted) > 2 and splitted[-1] == "0":', fire=["C02"])
+M("m-g15-regress", SG, """    while op != "~=" and len(splitted) > 2 and splitted[-1] == "0":
+        # python_version is always X.Y, so "3.7.0" (as rendered from a merged specifier) means "3.7";
+        # not for "~=", where the number of segments is significant
+        splitted.pop()
+""", "", fire=["C02"])
